@@ -207,7 +207,7 @@ pub fn run(ctx: &Ctx) -> Report {
         // scan-wide options may also stand inside the expression (never as its first word: that
         // would make them part of the leading run); their spelling variants must agree as well
         let leaf = prop_oneof![14 => gen::text_leaf(), 1 => Just(E::G(Glob::Depth)), 1 => gen::count_u32().prop_map(|n| E::G(Glob::Threads(n)))];
-        let strat = (gen::expr_over(leaf.boxed(), 6, 24, true), gen::choice_stream(80)).prop_map(|(t, c)| {
+        let strat = (gen::related(gen::expr_over(leaf.boxed(), 6, 24, true), true), gen::choice_stream(80)).prop_map(|(t, c)| {
             if matches!(t.leaves().first(), Some(E::G(_))) {
                 (E::and(E::T(Tst::Name("first".into())), t), c)
             } else {
